@@ -2,6 +2,11 @@
 
 package util
 
+// C13 (determinism): every function below belongs to it - its effect clause (no random, clock or environment
+// effect beyond the declared ones), frame, call preconditions and loop invariants are proved for every iteration
+// order of every map it ranges over.
+//@ fileprops C13
+
 // Contracts for the deductive verifier in /verif (govc).  This file contains comments only;
 // it is compiled only with -tags verif and declares nothing.
 
@@ -189,11 +194,13 @@ package util
 //@ spec nMethodsOf(t types.Type) int = cond(is(derefT(t), *types.Named), numMethods(namedOf(t)), 0)
 //@
 //@ func IterateFields(t, cb)
+//@   props C05, C04
 //@   requires t != nil
 //@   use T0(derefT(t)), T0(underlying(derefT(t)))
 //@   iterates cb count nFieldsOf(t) elem fieldAt(structOf(t), $i)
 //@   loop 1 invariant 0 <= i && $it.next == i && !$it.stopped
 //@ func IterateMethods(t, cb)
+//@   props C05, C04
 //@   requires t != nil
 //@   use T0(derefT(t))
 //@   iterates cb count nMethodsOf(t) elem methodAt(namedOf(t), $i)
